@@ -470,7 +470,8 @@ func Main(id, tier string, seed int64, verifDir string) int {
 	}
 	for i, v := range report {
 		if i >= 12 {
-			break
+			fmt.Printf("  (further violation with sig=%s: %s)\n", v.Sig, oneLine(v.Detail, 200))
+			continue
 		}
 		b, _ := json.MarshalIndent(v, "", " ")
 		h := sha256.Sum256(b)
